@@ -217,6 +217,20 @@ def body_ctor(sel: int) -> bool:
         dm1, dm2 = DecayMode(0.5, " ".join(lst)), DecayMode(0.5, lst)
         if dm1.to_dict() != dm2.to_dict() or len(dm1) != len(st):
             return fail("DecayMode from string and list differ")
+        # a final state is a mutable counter: inspection must not freeze what later conversions report
+        live = DaughtersDict(lst)
+        live.to_list(), live.to_string(), repr(live)
+        live["zeta"] += 2
+        if st:
+            live[st[0]] += 1
+        exp_live = sorted(lst + ["zeta", "zeta"] + ([st[0]] if st else []))
+        if live.to_list() != exp_live or live.to_string() != " ".join(exp_live) or len(live) != len(exp_live):
+            return fail(f"after in-place edits the final state reports {live.to_list()}, it holds {exp_live}")
+        dmod = DecayMode(0.5, lst)
+        dmod.to_dict()
+        dmod.daughters["zeta"] += 1
+        if dmod.to_dict()["fs"] != sorted(lst + ["zeta"]) or DecayMode.from_dict(dmod.to_dict()).daughters != dmod.daughters:
+            return fail(f"DecayMode.to_dict after an in-place edit of its daughters: {dmod.to_dict()['fs']}")
         s2 = (a + DaughtersDict(["K+"]))
         if not isinstance(s2, DaughtersDict) or len(s2) != len(st) + 1:
             return fail("sum of final states")
